@@ -205,6 +205,7 @@ def c17_runs(tier):
     th = tier == "thorough"
     runs = [("plain", ["--mode", "seq", "--mtu", "1500", "--wifi", "0"]), ("plain", ["--mode", "seq", "--mtu", "576", "--wifi", "1"]),
             ("plain", ["--mode", "seq", "--mtu", "576", "--wifi", "0", "--a", "1"]),      # B's MTU getter fails while A reports a small MTU
+            ("plain", ["--mode", "seq", "--mtu", "576", "--wifi", "1", "--a", "2"]),      # all of B's per-interface getters fail
             ("plain", ["--mode", "seq3", "--mtu", "1500", "--wifi", "0"])]
     np1, np2 = 4, 10
     for i in range(np1):
